@@ -103,6 +103,7 @@ type inst struct {
 	cfg  config
 	tk   *ticker
 	br   cb.CircuitBreaker
+	bad  string // a broken API contract found while setting up (apichk=1)
 	win  *cb.SlidingWindowCounter
 	log  []string
 }
@@ -189,13 +190,92 @@ func newInst(s *vdrv.Scenario) vdrv.Instance {
 	} else {
 		cb.SetDefaultLogger(nil)
 	}
+	named := s.OptInt("named", 0) == 1
+	if named {
+		b.Name(&cb.Name{Namespace: "ns", Subsystem: "sub", Name: "brk"})
+	}
 	br, err := b.Build()
 	if err != nil {
 		panic(err)
 	}
 	in.br = br
+	if s.OptInt("apichk", 0) == 1 {
+		in.bad = apiCheck(in, br, named)
+	}
 	in.tk.reads = nil
 	return in
+}
+
+// apiCheck: the parts of the package's API that are no operation of the scenarios - what the breaker remembers of its
+// configuration, the constructor's argument checks, Execute without a function, the rates of an empty count.
+func apiCheck(in *inst, br cb.CircuitBreaker, named bool) string {
+	c := in.cfg
+	nb, ok := br.(*cb.NonBlockingCircuitBreaker)
+	if !ok {
+		return "Build() did not return the non-blocking breaker"
+	}
+	if (nb.Name() != nil) != named || (named && (nb.Name().Namespace != "ns" || nb.Name().Subsystem != "sub" || nb.Name().Name != "brk")) {
+		return "Name() is not the name given to the builder"
+	}
+	cf := cb.VerifConfig(nb)
+	if cf.GetFailureRateThreshold() != c.thr || cf.GetMinimumRequestThreshold() != c.minreq || int64(cf.GetTrialRequestInterval()) != c.trial ||
+		int64(cf.GetCircuitOpenWindow()) != c.openw || int64(cf.GetCounterSlidingWindow()) != c.window || int64(cf.GetCounterUpdateInterval()) != c.interval ||
+		len(cf.Getlisteners()) != c.listeners || (cf.GetName() != nil) != named {
+		return "the configuration the breaker holds is not the one given to the builder: " + cf.String()
+	}
+	if cf.Validate() != nil {
+		return "the configuration of a built breaker does not validate"
+	}
+	if !strings.Contains(cf.String(), fmt.Sprintf("minimumRequestThreshold: %d", c.minreq)) {
+		return "String() of the configuration does not show it"
+	}
+	// constructor argument checks
+	if x, err := cb.NewNonBlockingCircuitBreaker(nil, cf); err == nil || x != nil {
+		return "NewNonBlockingCircuitBreaker accepted a nil ticker"
+	}
+	if x, err := cb.NewNonBlockingCircuitBreaker(in.tk, nil); err == nil || x != nil {
+		return "NewNonBlockingCircuitBreaker accepted a nil configuration"
+	}
+	if x, err := cb.NewNonBlockingCircuitBreaker(in.tk, &cb.CircuitBreakerConfig{}); err == nil || x != nil {
+		return "NewNonBlockingCircuitBreaker accepted the zero configuration"
+	}
+	if w, err := cb.NewSlidingWindowCounter(nil, 20, 5); err == nil || w != nil {
+		return "NewSlidingWindowCounter accepted a nil ticker"
+	}
+	// one field outside its documented domain at a time: Build must refuse
+	mk := func() *cb.CircuitBreakerBuilder {
+		return cb.NewCircuitBreakerBuilder().SetTicker(&ticker{}).SetFailureRateThreshold(0.5).SetMinimumRequestThreshold(2).
+			SetTrialRequestInterval(3).SetCircuitOpenWindow(10).SetCounterSlidingWindow(20).SetCounterUpdateInterval(5)
+	}
+	if _, err := mk().Build(); err != nil {
+		return "a configuration inside the documented domain was refused: " + err.Error()
+	}
+	for what, bb := range map[string]*cb.CircuitBreakerBuilder{
+		"threshold 0": mk().SetFailureRateThreshold(0), "threshold > 1": mk().SetFailureRateThreshold(1.5),
+		"trial interval 0": mk().SetTrialRequestInterval(0), "open window -1": mk().SetCircuitOpenWindow(-1),
+		"sliding window 0": mk().SetCounterSlidingWindow(0), "update interval 0": mk().SetCounterUpdateInterval(0),
+		"sliding window = update interval": mk().SetCounterSlidingWindow(5),
+	} {
+		if _, err := bb.Build(); err == nil {
+			return "Build accepted a configuration outside the documented domain: " + what
+		}
+	}
+	nlog, npos := len(in.log), in.tk.pos
+	if r, err := br.Execute(context.Background(), nil); r != nil || err != nil {
+		return fmt.Sprintf("Execute without a function returned (%v, %v)", r, err)
+	}
+	if len(in.log) != nlog || in.tk.pos != npos {
+		return "Execute without a function touched the breaker"
+	}
+	z := cb.EventCountZero
+	if z.Total() != 0 || z.SuccessRate() != -1 || z.FailureRate() != -1 {
+		return "the rates of an empty count must be -1"
+	}
+	e := cb.NewEventCount(3, 1)
+	if e.Success() != 3 || e.Failure() != 1 || e.Total() != 4 || e.SuccessRate() != 0.75 || e.FailureRate() != 0.25 {
+		return "EventCount(3,1): total / rates wrong"
+	}
+	return ""
 }
 
 var current *inst
@@ -356,6 +436,9 @@ func monitor(s *vdrv.Scenario, h *vdrv.History, fin string, aborted string) stri
 		return "run did not complete: " + aborted
 	}
 	in := current
+	if in.bad != "" {
+		return "API contract: " + in.bad
+	}
 	cfg := in.cfg
 	cs := calls(s, h)
 	log := in.log
